@@ -11,6 +11,7 @@ import (
 	"path/filepath"
 	"sort"
 	"strings"
+	"sync/atomic"
 	"time"
 
 	"golang.org/x/crypto/ocsp"
@@ -250,6 +251,7 @@ type hubWorld struct {
 	uFile        string
 	idOf         map[string]string // "D"/"U" -> repository identifier (learnt by observation)
 	number       int64
+	garbageN     int // documents of kind garbage published so far (every second one is an error page with an error status)
 	lastDoc      map[string]hubDoc
 	sawRej       bool // some fetched document was rejected earlier in this walk
 	poisoned     bool // a call never returned: the validator holds locks forever, do not touch it again
@@ -550,6 +552,14 @@ func (h *hubWorld) publish(l string, d hubDoc) {
 	if l == "U" {
 		path = h.pathU
 	}
+	if d.Q == "garbage" {
+		h.garbageN++
+	}
+	if d.Q == "garbage" && h.garbageN%2 == 0 {
+		// what a CRL server that is out of order usually answers: an error status with an error page as body
+		h.org.Set(path, origin.Behaviour{Kind: "status", Code: []int{503, 404, 500}[(h.garbageN/2)%3], Body: append([]byte("<html><body><h1>Service Unavailable</h1>"), body...)})
+		return
+	}
 	h.org.Set(path, origin.Behaviour{Kind: kind, Body: body})
 }
 
@@ -639,6 +649,10 @@ func parseDoc(v any) hubDoc {
 
 // runHubWalk replays one walk of the Revocation graph on a fresh real validator.
 // It returns the number of edges executed before the walk ended (drift ends a walk early).
+// hubGoneUnfetched: in the walks that run while it is set, the origin of D is down at every handshake in which the model
+// fetches nothing from it (set by guided parts that run one walk at a time)
+var hubGoneUnfetched atomic.Bool
+
 func runHubWalk(c *vk.Ctx, cfg HubCfg, walk []*graph.Edge, shape Shape, seed int64, preds ...hubPredicate) (done int) {
 	h, err := newHubWorld(cfg, shape, seed)
 	if err != nil {
@@ -734,6 +748,10 @@ func runHubWalk(c *vk.Ctx, cfg HubCfg, walk []*graph.Edge, shape Shape, seed int
 			obs.Cdp = certCdp(cert)
 			if exp.Fetch["D"] > 0 {
 				h.publish("D", parseDoc(op[2]))
+			} else if hubGoneUnfetched.Load() {
+				// what the origin serves is of no concern to a step that fetches nothing: it is taken down
+				h.publish("D", hubDoc{Signer: "A", Q: "down"})
+				real["origin_taken_down"] = true
 			}
 			r := h.w.HandshakeTimeout(h.chains[cert], 30*time.Second)
 			obs.Verdict, obs.Err = r.Verdict, r.Err
@@ -767,7 +785,19 @@ func runHubWalk(c *vk.Ctx, cfg HubCfg, walk []*graph.Edge, shape Shape, seed int
 				}
 			}
 			if name == "refresh" {
-				h.w.RefreshAll()
+				passDone := make(chan struct{})
+				go func() { defer close(passDone); h.w.RefreshAll() }()
+				select {
+				case <-passDone:
+				case <-time.After(90 * time.Second):
+					// nothing of the harness holds a pass back in these walks: the pass is stuck in the code
+					h.poisoned = true
+					if c.ID == "C15" {
+						c.Violation("refresh-pass-never-returns", "a refresh pass did not return within 90 s (no gate of the harness is closed in this walk): the CRLs of this process are not fetched again", map[string]any{"cfg": cfg, "steps": hist})
+					}
+					c.Drift("pass-never-returned")
+					return done
+				}
 			} else {
 				if !h.hooks.ReleaseForced(60 * time.Second) {
 					c.Drift("bgload-timeout")
@@ -790,7 +820,7 @@ func runHubWalk(c *vk.Ctx, cfg HubCfg, walk []*graph.Edge, shape Shape, seed int
 		}
 		obs.Loaded = h.realLoaded()
 		obs.Fetched = map[string]int{"D": h.hits("D") - before["D"], "U": h.hits("U") - before["U"]}
-		obs.Dims = map[string]any{"chain": h.chainVariant, "cdp": h.cdpVariant, "names": h.nameVariant, "same_bytes": h.sameBytes, "path_d": h.pathD, "path_u": h.pathU, "walk_seed": seed}
+		obs.Dims = map[string]any{"chain": h.chainVariant, "cdp": h.cdpVariant, "names": h.nameVariant, "same_bytes": h.sameBytes, "path_d": h.pathD, "path_u": h.pathU, "walk_seed": seed, "origin_down_where_model_fetches_nothing": hubGoneUnfetched.Load()}
 		if name == "refresh" && !h.poisoned {
 			for _, l := range []string{"D", "U"} {
 				if exp.Fetch[l] > 0 && obs.Fetched[l] == 0 && !(l == "U" && cfg.Conf == "file") {
